@@ -567,3 +567,34 @@ func (c *Ctx) pemWrites() (out []pemWrite, unresolved []string) {
 	}
 	return out, unresolved
 }
+
+// walkCallbacks: the module functions handed to fs.WalkDir / filepath.WalkDir / filepath.Walk as the visit function -
+// a closure, a named function or a method value (resolved to the method) - with the function that starts the walk.
+func (c *Ctx) walkCallbacks() map[*ssa.Function]*ssa.Function {
+	out := map[*ssa.Function]*ssa.Function{}
+	for _, walker := range []string{"io/fs.WalkDir", "path/filepath.WalkDir", "path/filepath.Walk"} {
+		for fn, cis := range c.funcsCalling(walker) {
+			for _, ci := range cis {
+				args := ci.Common().Args
+				v := unwrapConv(args[len(args)-1])
+				var cb *ssa.Function
+				switch x := v.(type) {
+				case *ssa.MakeClosure:
+					cb, _ = x.Fn.(*ssa.Function)
+				case *ssa.Function:
+					cb = x
+				}
+				if cb == nil {
+					continue
+				}
+				if cb.Synthetic != "" { // bound method value: the wrapper forwards to the method
+					if t := forwardTarget(c, cb); t != nil {
+						cb = t
+					}
+				}
+				out[cb] = fn
+			}
+		}
+	}
+	return out
+}
